@@ -85,6 +85,7 @@ def run_case(seed):
     count(f"box_edges={'mixed' if len(sizes) > 1 else 'uniform'}")
     count(f"min_edge_divides_all_corners={all(c % sizes[0] == 0 for lev in pf.levels for lo, hi in lev.boxes for c in list(lo) + [h + 1 for h in hi])}")
     lsx = lvls_sx(pf)
+    shared = {}
     for k in range(3):
         field = rng.choice(keys)
         comp = keys.index(field)
@@ -117,8 +118,10 @@ def run_case(seed):
                 m = re.search(r"Volume integral of .* in plotfile: (\S+)", buf.getvalue())
                 return ('printed', m.group(1) if m else None)
             with contextlib.redirect_stdout(buf):
-                pck = PlotfileCooker(path, ghost=True)
-                return ('value', volume_integral(pck, field, limit_level=limit_arg, use_volfrac=use_vol))
+                # one reader serves the successive integrals of a case (a limit given to one call must not leak into the next)
+                if 'reader' not in shared:
+                    shared['reader'] = PlotfileCooker(path, ghost=True)
+                return ('value', volume_integral(shared['reader'], field, limit_level=limit_arg, use_volfrac=use_vol))
         res = core.outcome(call)
         log = list(core.CPool.log)
         core.set_policy('identity', 0)
